@@ -112,20 +112,18 @@ pub struct Rejects {
 
 /// Evaluate one tape for property `prop` ("C01" or "C02"). Ok(None) = not usable (generator rejected).
 pub fn eval_case(prop: &str, tape: &[u16], rep: &Report, rejects: &Rejects) -> Result<Option<CaseStats>, (String, String, Value)> {
-    let reference = prop == "C01";
-    if !reference {
-        // C02: first the variant that cannot trap in arithmetic (strict equality), then the trapping one
-        let strict = eval_variant(prop, tape, rep, rejects, true)?;
-        if strict.is_none() {
-            return Ok(None);
-        }
-        let trapping = eval_variant(prop, tape, rep, rejects, false)?;
-        return Ok(match (strict, trapping) {
-            (Some(a), Some(b)) => Some(CaseStats { nontrivial: a.nontrivial || b.nontrivial, aborts: a.aborts + b.aborts, runs: a.runs + b.runs, size_ratio: b.size_ratio }),
-            (a, _) => a,
-        });
+    // both properties: first the variant that cannot trap in arithmetic (strict comparison), then the trapping one
+    let _ = prop;
+    let strict = eval_variant(prop, tape, rep, rejects, true, false)?;
+    if strict.is_none() {
+        return Ok(None);
     }
-    eval_variant(prop, tape, rep, rejects, false)
+    // the strict variant agreed on every input at both levels: the program's abort-free semantics is compiled correctly
+    let trapping = eval_variant(prop, tape, rep, rejects, false, true)?;
+    Ok(match (strict, trapping) {
+        (Some(a), Some(b)) => Some(CaseStats { nontrivial: a.nontrivial || b.nontrivial, aborts: a.aborts + b.aborts, runs: a.runs + b.runs, size_ratio: b.size_ratio }),
+        (a, _) => a,
+    })
 }
 
 /// signature of the recorded C01 finding (see known_findings.json)
@@ -145,7 +143,7 @@ fn o1_without_reverse_copy_prop(src: &str) -> Option<Vec<u8>> {
     })
 }
 
-fn eval_variant(prop: &str, tape: &[u16], rep: &Report, rejects: &Rejects, no_trap: bool) -> Result<Option<CaseStats>, (String, String, Value)> {
+fn eval_variant(prop: &str, tape: &[u16], rep: &Report, rejects: &Rejects, no_trap: bool, masked_variant_agreed: bool) -> Result<Option<CaseStats>, (String, String, Value)> {
     let reference = prop == "C01";
     let b = match build(tape, reference, no_trap) {
         Ok(b) => b,
@@ -196,7 +194,7 @@ fn eval_variant(prop: &str, tape: &[u16], rep: &Report, rejects: &Rejects, no_tr
             aborts += 1;
         }
         if reference {
-            let refo = match catch(|| Interp::run(&b.prog, args)) {
+            let refo = match catch(|| if no_trap { Interp::run_masked(&b.prog, args) } else { Interp::run(&b.prog, args) }) {
                 Ok(r) => r,
                 Err(p) => {
                     rep.class("interpreter_panicked");
@@ -234,6 +232,20 @@ fn eval_variant(prop: &str, tape: &[u16], rep: &Report, rejects: &Rejects, no_tr
                             rep.violation(Violation { signature: SIG01_DEAD_TRAP.into(), summary, replay });
                             continue;
                         }
+                    }
+                }
+                // Weaker attribution, release builds only (C02's rule): the debug build agrees with the eager semantics, the
+                // release build continues past that arithmetic abort (its logs extend the prescribed ones), and the
+                // operand-masked variant of this program agreed with the reference on every input at both levels. Counted
+                // separately; needed where the optimizer removes a dead computation whose deadness the lazy semantics cannot
+                // see (e.g. a condition whose both arms end up empty after inlining).
+                if lvl == "release" && !no_trap && masked_variant_agreed && refo.result == Err(Abort::Arith) && agrees_with_reference(&r0, &refo).is_ok() {
+                    let lp = log_payloads(r);
+                    if lp.len() >= refo.logs.len() && lp[..refo.logs.len()] == refo.logs[..] {
+                        rep.class("known:dead-arithmetic-abort-eliminated(release-only rule)");
+                        let (_, summary, replay) = mk(SIG01_DEAD_TRAP, format!("release build: {d}; the debug build aborts as prescribed and the abort-free variant of the program agrees at both levels"));
+                        rep.violation(Violation { signature: SIG01_DEAD_TRAP.into(), summary, replay });
+                        continue;
                     }
                 }
                 // Recorded finding shared with C02: the release-only pass memcpyprop_reverse. Attributed only when the release
@@ -323,7 +335,11 @@ pub fn run(ctx: &Ctx) {
         rep.assume("run-time out-of-bounds array indices are never generated (index is taken modulo the length): known upstream issue #7521, pinned separately");
     }
     let rejects = Rejects::default();
-    let cases = ctx.cases(800, 40_000);
+    let cases = if prop == "C01" { ctx.cases(300, 20_000) } else { ctx.cases(800, 40_000) };
+    if prop == "C01" {
+        // arithmetic half of the statement: per-width operator tables on boundary-derived operand pairs
+        crate::optable::run_optable(ctx, &rep, ctx.cases(40_000, 2_000_000));
+    }
     // watchdog: a compilation running for more than 120 s is reported as inconclusive (exit 2), never as a violation
     spawn_watchdog(&prop);
     let out = run_prop(ctx, if prop == "C01" { 1 } else { 2 }, cases, tape_strategy, |tape| {
@@ -495,4 +511,30 @@ pub fn spawn_watchdog(prop: &str) {
 /// watchdog limit for one compilation / case in seconds (VERIF_WATCHDOG, default 300)
 pub fn watchdog_secs() -> u64 {
     std::env::var("VERIF_WATCHDOG").ok().and_then(|s| s.parse().ok()).unwrap_or(300)
+}
+
+/// development helper: `vp c01-replay <replay.json>`: eager / lazy reference outcome and both builds for the recorded tape and input
+pub fn dev_c01_replay(args: &[String]) {
+    let v: Value = serde_json::from_str(&std::fs::read_to_string(&args[0]).expect("read")).expect("json");
+    let tape: Vec<u16> = v["case"]["tape"].as_array().unwrap().iter().map(|x| x.as_u64().unwrap() as u16).collect();
+    let data = hex::decode(v["case"]["script_data"].as_str().unwrap()).unwrap();
+    let b = build(&tape, true, false).expect("gen");
+    println!("{}", b.src);
+    let inputs = swaygen::input_sets(hash64(&tape.iter().flat_map(|x| x.to_be_bytes()).collect::<Vec<u8>>()));
+    for args in &inputs {
+        if swaygen::encode_args(args) != data {
+            continue;
+        }
+        let e = Interp::run(&b.prog, args);
+        let l = Interp::run_lazy(&b.prog, args);
+        println!("// eager: {:?} logs {:?}", e.result.as_ref().map(|v| hex::encode(v.encoded())), e.logs.iter().map(hex::encode).collect::<Vec<_>>());
+        println!("// lazy : {:?} logs {:?} poisoned_ops {}", l.result.as_ref().map(|v| hex::encode(v.encoded())), l.logs.iter().map(hex::encode).collect::<Vec<_>>(), l.poisoned_ops);
+        if let Ok(bc) = &b.o0 {
+            println!("// O0   : {}", exec::run_script(bc, &data).to_json());
+        }
+        if let Ok(bc) = &b.o1 {
+            println!("// O1   : {}", exec::run_script(bc, &data).to_json());
+        }
+    }
+    std::process::exit(0);
 }
